@@ -15,9 +15,24 @@ use re::math::point::{pt2, Point2};
 use re::math::rand::{Bernoulli, Distrib, PointsInUnitBall, PointsOnUnitDisk, Uniform, UnitCircle, UnitSphere, VectorsInUnitBall, VectorsOnUnitDisk, Xorshift64};
 use re::math::vec::{vec2, vec3, Vec2, Vec3};
 
+/// The step function on states (the statement speaks of states; what
+/// next_bits() returns is compared with the new state separately).
 fn step(s: u64) -> u64 {
     let mut g = Xorshift64(s);
-    g.next_bits()
+    g.next_bits();
+    g.0
+}
+
+/// Does next_bits() return the new state (as the library does today)? The
+/// solved-state streams prescribe *output* bits through the state matrix and
+/// are only meaningful then.
+fn output_is_state() -> bool {
+    (0..512u64).all(|k| {
+        let s = crate::mix64(k.wrapping_mul(0x9E37_79B9_7F4A_7C15) ^ 0xD1B5_4A32_D192_ED03) | 1;
+        let mut g = Xorshift64(s);
+        let o = g.next_bits();
+        o == g.0
+    })
 }
 
 const PRIMES: [u64; 7] = [3, 5, 17, 257, 641, 65537, 6700417];
@@ -81,9 +96,14 @@ pub fn run(cfg: &Cfg, rep: &mut Report) {
     // ---- (A) period, algebraically over observed outputs
     let m = M64::observe(step);
     rep.add("step_observations", 64);
+    let out_is_state = output_is_state();
+    rep.info("next_bits_returns_the_new_state", out_is_state);
+    if !out_is_state {
+        rep.note("next_bits() does not return the new state: streams that prescribe output bits through the state matrix aim at other mantissas than intended; their targeting floors are not applied (range checks still are)".into());
+    }
     let minv = m.inverse();
     {
-        let zero_fixed = step(0) == 0;
+        let zero_fixed = catch(|| step(0) == 0).unwrap_or(false);
         let order_ok = m.pow(u64::MAX as u128) == M64::identity();
         let mut proper = true;
         let mut which = vec![];
@@ -122,15 +142,10 @@ pub fn run(cfg: &Cfg, rep: &mut Report) {
         hs.u64(a).u64(b);
         rep.case(hs.get(), true);
         let (fa, fb, fab) = (step(a), step(b), step(a ^ b));
-        {
-            // the returned bits are the new state (what makes the observed
-            // outputs a description of the state sequence)
-            let mut g = Xorshift64(a);
-            let out = g.next_bits();
-            if g.0 != out {
-                rep.violation("rng.step_not_linear", format!("next_bits() from state {a:#x} returned {out:#x} but left the state at {:#x}: the outputs do not describe the state sequence", g.0), Json::obj().set("a", format!("{a:#x}")));
-                return;
-            }
+        // the all-zero state is outside the statement ("from a non-zero seed")
+        if a == 0 || b == 0 || a == b {
+            rep.count("linearity.pairs_involving_the_zero_state(skipped)");
+            return;
         }
         if fab != fa ^ fb || m.apply(a) != fa {
             rep.violation("rng.step_not_linear", format!("f({a:#x}) ^ f({b:#x}) = {:#x} but f(a^b) = {fab:#x}; observed matrix gives {:#x} for a", fa ^ fb, m.apply(a)), Json::obj().set("a", format!("{a:#x}")).set("b", format!("{b:#x}")));
@@ -144,6 +159,10 @@ pub fn run(cfg: &Cfg, rep: &mut Report) {
         if a != 0 {
             let (mut g1, mut g2) = (Xorshift64::from_seed(a), Xorshift64::from_seed(a));
             for _ in 0..4 {
+                if g1.0 == 0 {
+                    rep.violation("rng.reaches_zero", format!("a generator seeded with the non-zero seed {a:#x} is in the all-zero state"), Json::obj().set("seed", format!("{a:#x}")));
+                    return;
+                }
                 if g1.next_bits() != g2.next_bits() {
                     rep.violation("rng.not_deterministic", format!("two generators seeded with {a:#x} diverge"), Json::obj().set("seed", format!("{a:#x}")));
                     return;
@@ -194,8 +213,9 @@ pub fn run(cfg: &Cfg, rep: &mut Report) {
                 let mut g = Xorshift64(s);
                 let x = Uniform(a..b).sample(&mut g);
                 if g.0 != y {
-                    rep.violation("rng.preimage_mismatch", format!("state {s:#x} did not produce the solved-for output {y:#x}"), Json::obj().set("state", format!("{s:#x}")));
-                    return;
+                    // a sampler may draw more than once (rejection of `end`);
+                    // the mantissa aimed at is then not the one consumed last
+                    rep.count("float_sample.consumed_other_than_one_draw(not a clause)");
                 }
                 if variant == 0 {
                     first_variant[ri] = x.to_bits();
@@ -438,7 +458,10 @@ pub fn run(cfg: &Cfg, rep: &mut Report) {
                 return;
             }
             Ok((d, dp, b, bp)) => {
-                if !(inside(&d) && inside(&b)) || d != dp || b != bp {
+                if d == dp && b == bp {
+                    rep.count("shape_samples.point_and_vector_variants_identical");
+                }
+                if !(inside(&d) && inside(&b) && inside(&dp) && inside(&bp)) {
                     rep.violation("rng.disk_ball_outside", format!("disk sample {d:?} (|v|={}) / ball sample {b:?} (|v|={}); point variants {dp:?} {bp:?}", len2(&d), len2(&b)), cj());
                     return;
                 }
@@ -542,7 +565,17 @@ pub fn run(cfg: &Cfg, rep: &mut Report) {
             (Uniform(a..b).sample(&mut g), Uniform(i0..i1).sample(&mut g))
         };
         let bits = |x: &[f32]| x.iter().map(|v| v.to_bits()).collect::<Vec<_>>();
-        if bits(&arr) != bits(&scalar) || bits(&vec.0) != bits(&scalar) || bits(&v2.0) != bits(&scalar[..2]) || bits(&p2.0) != bits(&scalar[..2]) || tup.0.to_bits() != tup_scalar.0.to_bits() || tup.1 != tup_scalar.1 {
+        // "independently, in order": component k is the value a scalar draw
+        // from range k gives at that point of the sequence — to within a few
+        // ulps of the range's ends (a composite doing its own arithmetic, e.g.
+        // through f64 or a lerp, need not round like the scalar sampler); bit
+        // equality, as the library has it today, is counted
+        let ends = [a.abs().max(b.abs()), c.abs().max(d.abs()), e.abs().max(f.abs())];
+        let close = |x: &[f32], y: &[f32]| x.iter().zip(y).enumerate().all(|(k, (p, q))| p.to_bits() == q.to_bits() || (p - q).abs() <= 4.0 * 1.1920929e-7 * ends[k]);
+        if bits(&arr) == bits(&scalar) && bits(&vec.0) == bits(&scalar) && bits(&p2.0) == bits(&scalar[..2]) {
+            rep.count("composites.bit_identical_to_scalar_draws");
+        }
+        if !close(&arr, &scalar) || !close(&vec.0, &scalar) || !close(&v2.0, &scalar[..2]) || !close(&p2.0, &scalar[..2]) || !close(&[tup.0], &[tup_scalar.0]) || tup.1 != tup_scalar.1 {
             rep.violation(
                 "rng.composite_component_order",
                 format!("array {arr:?} / vector {:?} / vec2 {:?} / point {:?} / tuple {tup:?} vs scalar draws in order {scalar:?}, {tup_scalar:?}", vec.0, v2.0, p2.0),
@@ -596,22 +629,40 @@ pub fn run(cfg: &Cfg, rep: &mut Report) {
         rep.count("composite_checks");
     });
     // the documented default
-    if Xorshift64::default().0 != Xorshift64::DEFAULT_SEED || Xorshift64::DEFAULT_SEED == 0 || Xorshift64::from_seed(7).0 != 7 {
-        rep.violation("rng.not_deterministic", format!("Xorshift64::default() has state {:#x}, DEFAULT_SEED is {:#x}", Xorshift64::default().0, Xorshift64::DEFAULT_SEED), Json::obj());
+    // equal seeds, equal sequences — also for the documented default (how a
+    // seed is turned into a state is the library's business)
+    {
+        let (mut a, mut b) = (Xorshift64::default(), Xorshift64::default());
+        let (mut c, mut d) = (Xorshift64::from_seed(7), Xorshift64::from_seed(7));
+        if (0..8).any(|_| a.next_bits() != b.next_bits() || c.next_bits() != d.next_bits()) || Xorshift64::default().0 == 0 || Xorshift64::from_seed(7).0 == 0 {
+            rep.violation("rng.not_deterministic", "two default() or two from_seed(7) generators diverge, or start in the all-zero state".into(), Json::obj());
+        }
     }
 
     rep.floor("linearity_pairs", 1_000_000);
     rep.floor("preimages_verified", 500_000);
-    rep.floor("float_samples", 3 * ((1u64 << 23) - 1) * FLOAT_RANGES.len() as u64);
+    if out_is_state {
+        rep.floor("float_samples", 3 * ((1u64 << 23) - 1) * FLOAT_RANGES.len() as u64);
+    }
     rep.floor("int_samples", 1_000_000);
     rep.floor("shape_samples", 500_000);
-    rep.floor("shape_states.circle_centre", 100_000);
-    rep.floor("shape_states.sphere_near_centre", 100_000);
-    rep.floor("shape_states.disk_rim", 50_000);
+    if out_is_state && centre2.is_some() {
+        rep.floor("shape_states.circle_centre", 100_000);
+    }
+    if out_is_state && !near3.is_empty() {
+        rep.floor("shape_states.sphere_near_centre", 100_000);
+    }
+    if out_is_state && rim2.is_some() {
+        rep.floor("shape_states.disk_rim", 50_000);
+    }
     rep.floor("float_random_range_samples", 500_000);
-    rep.floor("float_random_range_samples.top_mantissa", 100_000);
+    if out_is_state {
+        rep.floor("float_random_range_samples.top_mantissa", 100_000);
+    }
     rep.floor("samples_iterator_checks", 100_000);
     rep.floor("composite_checks", 200_000);
     rep.floor("composites.narrow_ranges_far_from_the_origin", 100_000);
-    rep.floor("composites.states_solved_for_extreme_mantissas", 100_000);
+    if out_is_state && solve_states_top(&[0x7f_ffff, 0x7f_ffff], 0).is_some() {
+        rep.floor("composites.states_solved_for_extreme_mantissas", 100_000);
+    }
 }
